@@ -274,8 +274,7 @@ class DiscretizedSpace(TensorSpace):
             bdry_fracs = self.partition.boundary_cell_fractions
             is_uniformly_weighted = (
                 np.allclose(bdry_fracs, 1.0) or
-                self.exponent == float('inf') or
-                not getattr(self.tspace, 'is_weighted', False))
+                self.exponent == float('inf'))
 
             self.__is_uniformly_weighted = is_uniformly_weighted
 
